@@ -194,7 +194,7 @@ impl Language for Go {
         writeln!(
             w,
             "type {} {}\n",
-            self.acronyms_to_uppercase(&ty.id.original),
+            self.acronyms_to_uppercase(&ty.id.renamed),
             self.format_type(&ty.r#type, &[])
                 .map_err(|e| std::io::Error::new(std::io::ErrorKind::Other, e))?
         )?;
@@ -309,7 +309,7 @@ impl Go {
                 shared,
                 ..
             } => {
-                let struct_name = self.acronyms_to_uppercase(&shared.id.original);
+                let struct_name = self.acronyms_to_uppercase(&shared.id.renamed);
                 let content_field = content_key.to_string().to_camel_case();
                 let tag_field = self.format_field_name(tag_key.to_string(), true);
                 let struct_short_name = shared.id.original[..1].to_lowercase();
